@@ -33,6 +33,8 @@ type Ctx struct {
 	quants   map[string]*quantInfo
 	qorder   []string
 	defs     map[string]string // define-fun name -> body
+	objTags  map[string][]int // object term -> the allocation tags it can carry when it is not nil (Go typing of the value it stands for)
+	nonNil   map[string]bool  // object terms known not to be nil
 }
 
 type caseCond struct {
@@ -80,7 +82,7 @@ type Obl struct {
 }
 
 func newCtx() *Ctx {
-	c := &Ctx{cons: map[string]string{}, maxv: map[string]*big.Int{}, lowz: map[string]int{}, decls: map[string]bool{}, reps: map[string]sliceRep{}, splits: map[string][2]chunk{}, refine: map[string]sliceRep{}, uOf: map[string]string{}, quants: map[string]*quantInfo{}, defs: map[string]string{}}
+	c := &Ctx{cons: map[string]string{}, maxv: map[string]*big.Int{}, lowz: map[string]int{}, decls: map[string]bool{}, reps: map[string]sliceRep{}, splits: map[string][2]chunk{}, refine: map[string]sliceRep{}, uOf: map[string]string{}, quants: map[string]*quantInfo{}, defs: map[string]string{}, objTags: map[string][]int{}, nonNil: map[string]bool{}}
 	for _, l := range []string{"(define-sort HP () (Array Int (Array Int Int)))", "(declare-fun tag (Int) Int)", "(declare-fun wraps (Int) Int)",
 		// the all-zero object row (a named array instead of (as const ...): cvc5's array solver rejects chains over constant arrays)
 		"(declare-const zeroRow (Array Int Int))", "(assert (forall ((x Int)) (! (= (select zeroRow x) 0) :pattern ((select zeroRow x)))))"} {
